@@ -21,7 +21,6 @@ OkTable(S) ==
   /\ \A a, b \in S : a # b => ~(a[1] = b[1] /\ a[2] = b[2])                         \* one route per (method, pattern)
   /\ \A a, b \in S : a[1] = b[1] => ~ConflictAt(PoolToks[a[2]], PoolToks[b[2]])
   /\ \A a \in S : Valid(GenPool[a[2]])
-  /\ \A a \in S : ~(GenEntryMethods[a[1]] = "CONNECT" /\ a[3] = 2)                  \* see DESIGN.md 7 (CONNECT + ignore)
 
 Tables == {S \in (SubsetsUpTo(Kinds, GenMaxTab) \ {{}}) \cup GenExtraTables : OkTable(S)}
 
@@ -50,7 +49,7 @@ ReplyVec(T, c, m, p) ==
             [] r.kind = "route"    -> <<c, m, p, 1, r.e, IF r.tsr THEN 1 ELSE 0, Binds(r.b)>>
             [] r.kind = "redirect" -> <<c, m, p, 2, r.code, Str(r.target)>>
             [] r.kind = "options"  -> <<c, m, p, 3, SortedStrs(r.allow), SortedStrs(r.optional), IF r.amb THEN 1 ELSE 0>>
-            [] r.kind = "nomethod" -> <<c, m, p, 4, SortedStrs(r.allow), SortedStrs(r.optional), 0>>
+            [] r.kind = "nomethod" -> <<c, m, p, 4, SortedStrs(r.allow), SortedStrs(r.optional), IF r.amb THEN 1 ELSE 0>>
 
 Vec(S) ==
   LET T == TableOf(S)
